@@ -15,11 +15,20 @@ Import ListNotations.
 Open Scope Z_scope.
 
 (* a distinct snapshot of the case: hash, timestamp, signers as positions in [nodes] *)
-Inductive psnap := PS (hash : N) (ts : Z) (signers : list nat).
+Inductive psnap :=
+| PS (hash : N) (ts : Z) (signers : list nat)
+(* signers = the node positions from, from+1, ..., from+count-1 (big signer lists) *)
+| PSR (hash : N) (ts : Z) (from count : N).
 
 (* one call: position of the node id, round, credit flag, whether the real call
    panicked, the submitted list as positions in [pool] *)
-Inductive rsub := RSub (node : nat) (round : Z) (credit : bool) (panicked : bool) (snaps : list nat).
+Inductive rsub :=
+| RSub (node : nat) (round : Z) (credit : bool) (panicked : bool) (snaps : list nat)
+(* the submitted list is the pool positions from, from+1, ..., from+count-1
+   (rounds with hundreds of snapshots) *)
+| RRange (node : nat) (round : Z) (credit : bool) (panicked : bool) (from count : N).
+
+Definition range (from count : N) : list nat := seq (N.to_nat from) (N.to_nat count).
 
 (* table: for every day of [days] one list [lead_0; sign_0; lead_1; sign_1; ...]
    over [nodes]; offs: ReadWorkOffset per node of [nodes] *)
@@ -29,12 +38,15 @@ Inductive case :=
 
 Definition in_range {A} (l : list A) (i : nat) : bool := Nat.ltb i (length l).
 
+Definition dec_signers (nodes : list N) (h : N) (ts : Z) (sg : list nat) : option snap :=
+  if forallb (in_range nodes) sg
+  then Some (mk_snap h ts (map (fun i => nth i nodes 0%N) sg))
+  else None.
+
 Definition dec_snap (nodes : list N) (p : psnap) : option snap :=
   match p with
-  | PS h ts sg =>
-    if forallb (in_range nodes) sg
-    then Some (mk_snap h ts (map (fun i => nth i nodes 0%N) sg))
-    else None
+  | PS h ts sg => dec_signers nodes h ts sg
+  | PSR h ts from count => dec_signers nodes h ts (range from count)
   end.
 
 Fixpoint dec_pool (nodes : list N) (pool : list psnap) : option (list snap) :=
@@ -49,10 +61,17 @@ Fixpoint dec_pool (nodes : list N) (pool : list psnap) : option (list snap) :=
 
 Definition dummy_snap : snap := mk_snap 0%N 0 [].
 
+Definition sub_parts (s : rsub) : nat * Z * bool * bool * list nat :=
+  match s with
+  | RSub n r c p ix => (n, r, c, p, ix)
+  | RRange n r c p from count => (n, r, c, p, range from count)
+  end.
+
 Fixpoint replay (nodes : list N) (pool : list snap) (st : state) (subs : list rsub) : option state :=
   match subs with
   | [] => Some st
-  | RSub n r c p ix :: subs' =>
+  | s :: subs' =>
+    let '(n, r, c, p, ix) := sub_parts s in
     if in_range nodes n && forallb (in_range pool) ix then
       match write_round_work st (nth n nodes 0%N) r (map (fun i => nth i pool dummy_snap) ix) c, p with
       | Ok st', false => replay nodes pool st' subs'
